@@ -342,7 +342,8 @@ def gen_opes(r, k, T):
         tags.append("calcWork")
     B.append("}")
     return {"fam": "opes", "tags": tags, "natoms": nv, "setup": ["temperature 300.0", "restartfreq %d" % rf],
-            "config": cfg + B, "it0": 0, "pos": walk(r, T, nv, lo=-3.0, hi=3.0, bits=3), "restartfreq": rf}
+            "config": cfg + B, "it0": 0, "pos": walk(r, T, nv, lo=-3.0, hi=3.0, bits=3), "restartfreq": rf,
+            "needs_prefix": True}
 
 
 FAMILIES = {"opes": gen_opes, "restraint": gen_restraint, "histogram": gen_histogram, "extlag": gen_extlag, "abmd": gen_abmd, "alb": gen_alb, "abf": gen_abf, "meta": gen_meta}
